@@ -775,6 +775,36 @@ def impl_runtask(case, workdir):
             kw = {'config_filenames': ('pyproject.toml',)}
         elif case['ini'] or case.get('cfg_not_none'):
             kw['extra_config'] = {'task:t': cfg_py(case['ini'])}
+        if case.get('api'):
+            # doit.api.run_tasks: no command line at all; task_opts[t] becomes t.cfg_values (typed values, not parsed),
+            # task_opts[t][pos_arg] becomes pos_arg_val as it is.  Called twice with the same dict object.
+            import copy
+            from doit.api import run_tasks
+            opts = cfg_py(case['task_opts'])
+            if case.get('pos_arg') and case.get('api_pos_given'):
+                opts['posv'] = list(case['pos'])
+            tasks = {'t': opts}
+            before = copy.deepcopy(tasks)
+            outs = []
+            with environ(case['env']), contextlib.redirect_stderr(err), contextlib.redirect_stdout(out):
+                for _ in range(2):
+                    rec.clear()
+                    rec['order'] = []
+                    try:
+                        run_tasks(ModuleTaskLoader(dict(ns)), tasks, extra_config=kw.get('extra_config'))
+                        if 't' in rec:
+                            opts_seen, posv = rec['t']
+                            r = params_obs(names, opts_seen, list(posv) if case.get('pos_arg') else rec['order'][1:])
+                            r['ok']['nd'] = None
+                        else:
+                            r = {'err': 'crash', 'exc': 'task t did not run: ' + err.getvalue().strip().split('\n')[-1][:60]}
+                    except BaseException as ex:  # noqa
+                        r = exc_obs(ex)
+                    outs.append(r)
+            res = {'res': outs[0], 'res2': outs[1]}
+            if tasks != before:
+                res['task_opts_mutated'] = {'before': canon_val(repr(before)), 'after': canon_val(repr(tasks))}
+            return res
         with environ(case['env']), contextlib.redirect_stderr(err), contextlib.redirect_stdout(out):
             try:
                 code = DoitMain(task_loader=ModuleTaskLoader(ns), **kw).run(['t'] + list(case['argv']))
